@@ -239,6 +239,9 @@ macro_rules! dispatch {
             "C16" => $f(&props::c16::C16, $($args),*),
             "C17" => $f(&props::c17::C17, $($args),*),
             "C18" => $f(&props::c18::C18, $($args),*),
+            "C19" => $f(&props::c19::C19, $($args),*),
+            "C20" => $f(&props::c20::C20, $($args),*),
+            "C21" => $f(&props::c21::C21, $($args),*),
             "C24" => $f(&props::c24::C24, $($args),*),
             "C25" => $f(&props::c25::C25, $($args),*),
             "C26" => $f(&props::c26::C26, $($args),*),
